@@ -91,8 +91,9 @@ func NewParameters(rlweParams rlwe.Parameters, t uint64) (p Parameters, err erro
 		return Parameters{}, fmt.Errorf("provided RLWE parameters are invalid")
 	}
 
-	if t > rlweParams.Q()[0] {
-		return Parameters{}, fmt.Errorf("t=%d is larger than Q[0]=%d", t, rlweParams.Q()[0])
+	// A plaintext at level 0 holds coefficients in [0, t) that are read back centred modulo Q[0]: t must be below Q[0]/2.
+	if t > rlweParams.Q()[0]>>1 {
+		return Parameters{}, fmt.Errorf("t=%d is larger than Q[0]/2=%d", t, rlweParams.Q()[0]>>1)
 	}
 
 	var ringQMul *ring.Ring
